@@ -16,7 +16,7 @@ def sh(cmd, cwd=None, timeout=1800):
     return r.returncode, r.stdout + r.stderr
 
 
-def make(jobs=16, timeout=1800, target="Model/Api.vo"):
+def make(jobs=16, timeout=1800, target="Model/Api.vo Model/Adaptive.vo Model/Trace.vo Gen/TraceGen.vo"):
     """coq_makefile + make of the executable model only (the proofs are built per property by the
     proof stage, so that a broken proof never prevents the model from being run); returns (ok, log)"""
     os.makedirs(BUILD, exist_ok=True)
